@@ -65,7 +65,9 @@ Definition ecode_table : list (string * Z) := [
   ("base.BaseResp.FastRead#thrift.PrependError#3", 300);
   (* used by the translator's differential self-test (tools/gotrans/testdata/sem) only *)
   ("sem.inner#fmt.Errorf", 201); ("sem.ErrWrap#errors.New", 202); ("sem.ErrWrap#fmt.Errorf#1", 203);
-  ("sem.ErrWrap#fmt.Errorf#2", 204); ("sem.ErrNilDeref#errors.New", 205); ("sem.ErrNilDeref#fmt.Errorf", 206)
+  ("sem.ErrWrap#fmt.Errorf#2", 204); ("sem.ErrNilDeref#errors.New", 205); ("sem.ErrNilDeref#fmt.Errorf", 206);
+  (* phase 4, bufiox (Model/BufReader.v e_noprogress, e_negcount; Model/BufWriter.v E_NEG is Spec/Log.v's) *)
+  ("io.ErrNoProgress", 22); ("bufiox.errNegativeCount", 23)
 ]%string.
 (* ECODE-TABLE-END *)
 Fixpoint ecode_find (l : list (string * Z)) (s : string) : Z :=
@@ -314,3 +316,63 @@ Definition gregion_need (r : gregion) (k : nat) : res Z :=
 (* x[i] for a slice that the function only reads (a list): panics out of range *)
 Definition gelem {A} (l : list A) (i : Z) : res A :=
   if i <? 0 then Panic 2 else match nth_error l (Z.to_nat i) with Some x => Ok x | None => Panic 2 end.
+
+(* =====================================================================================
+   Phase 4 of the translator: slices with spare capacity (bufiox)
+   ===================================================================================== *)
+
+(* A []byte whose CAPACITY matters (a []byte field of one of the structs listed in the translator's
+   table csStructs, a local variable or parameter that such a value flows into): None is the nil
+   slice; Some (mem, l): mem = the contents of the backing array from the slice's first element up
+   to its capacity (cap = the length of mem), l = len, 0 <= l <= cap.  Values, not references:
+   the translator's sharing discipline (ext4.go) refuses a function in which two live variables
+   could refer to one backing array while one of them is stored into; slices handed out to the
+   caller ([]byte results, which are contents: [gcs_bytes]) are NOT tracked. *)
+Definition gcslice := option (bytes * Z).
+Definition gcs_nil : gcslice := None.
+Definition gcs_is_nil (s : gcslice) : bool := match s with None => true | Some _ => false end.
+Definition gcs_len (s : gcslice) : Z := match s with None => 0 | Some (_, l) => l end.
+Definition gcs_mem (s : gcslice) : bytes := match s with None => [] | Some (m, _) => m end.
+Definition gcs_cap (s : gcslice) : Z := glen (gcs_mem s).
+(* the contents s[0:len]: what the []byte VALUES of the earlier phases stand for *)
+Definition gcs_bytes (s : gcslice) : bytes := take (Z.to_N (gcs_len s)) (gcs_mem s).
+(* s[lo:hi] needs 0 <= lo <= hi <= cap(s) (s[lo:] is s[lo:len(s)], s[:hi] is s[0:hi]); a slice of the
+   nil slice is nil *)
+Definition gcs_slice (s : gcslice) (lo hi : Z) : res gcslice :=
+  if (lo <? 0) || (hi <? lo) || (gcs_cap s <? hi) then Panic 1
+  else match s with
+       | None => Ok None
+       | Some (m, _) => Ok (Some (drop (Z.to_N lo) m, hi - lo))
+       end.
+(* n := copy(s[lo:hi], v): the slice expression is checked, min(len v, hi - lo) bytes are stored at
+   lo; v is a value (evaluated before the store: Go's copy handles overlap like memmove) *)
+Definition gcs_copy (s : gcslice) (lo hi : Z) (v : bytes) : res (gcslice * Z) :=
+  if (lo <? 0) || (hi <? lo) || (gcs_cap s <? hi) then Panic 1
+  else let n := N.min (len v) (Z.to_N (hi - lo)) in
+       match s with
+       | None => Ok (None, 0)
+       | Some (m, l) => Ok (Some ((take (Z.to_N lo) m ++ take n v ++ drop (Z.to_N lo + n) m)%list, l), Z.of_N n)
+       end.
+(* obj.M(s[lo:hi]) for a method that stores into its argument (io.Reader.Read): the method's model
+   is given the contents of the window and returns its final contents [p] (trusted: of the same
+   length), which replace the window in the backing array *)
+Definition gcs_splice (s : gcslice) (lo : Z) (p : bytes) : gcslice :=
+  match s with
+  | None => None
+  | Some (m, l) => Some ((take (Z.to_N lo) m ++ p ++ drop (Z.to_N lo + len p) m)%list, l)
+  end.
+
+(* a [][]byte field (parked buffers): None is nil *)
+Definition gcslist := option (list gcslice).
+Definition gcsl_nil : gcslist := None.
+Definition gcsl_is_nil (l : gcslist) : bool := match l with None => true | Some _ => false end.
+Definition gcsl_items (l : gcslist) : list gcslice := match l with None => [] | Some x => x end.
+Definition gcsl_len (l : gcslist) : Z := glen (gcsl_items l).
+(* append(l, s): capacity of the outer slice is not modelled (appending never fails) *)
+Definition gcsl_append (l : gcslist) (s : gcslice) : gcslist := Some (gcsl_items l ++ [s])%list.
+
+(* an array field [N]T of integers is a list Z of length N (the theorems assume the length);
+   a[i] = x panics out of range like a[i] (gelem) *)
+Definition garr_set (a : list Z) (i : Z) (x : Z) : res (list Z) :=
+  if (i <? 0) || (glen a <=? i) then Panic 2
+  else Ok (firstn (Z.to_nat i) a ++ x :: skipn (S (Z.to_nat i)) a)%list.
